@@ -26,7 +26,8 @@ structure TInv (s : St) : Prop where
   fl_inflight : ∀ g, g ∈ s.fl → inFlight s g
   idle_link : ∀ f, s.tk f ≠ .takeWaiting → (∀ b, s.tk f ≠ .raising b) → s.p.pc f = .idle
   raising_link : ∀ f b, s.tk f = .raising b → ¬ (s.p.pc f).inWait
-  taker_id : ∀ f v, s.tk f = .takeSaw v → s.p.waiterId = some f
+  taker_id : ∀ f, (s.tk f = .takeLoop ∨ (∃ v, s.tk f = .takeSaw v) ∨ s.tk f = .takeWaiting ∨ s.tk f = .takeDone) →
+    s.p.waiterId = some f
   cov_pre : 0 < s.tokens → s.fl = [] → ∀ w, s.p.waiterId = some w → committed s w → s.p.word = .raised
   cov_asleep : 0 < s.tokens → s.fl = [] → ∀ w, asleep s w → ∃ g, s.p.waker w = some g
 
@@ -60,5 +61,114 @@ theorem pinv_of_step (s s' : St) (e : Ev) (hi : PInv s.p) (hs : step s e = some 
     all_goals first
       | (subst hs; exact hi)
       | (obtain ⟨_, rfl⟩ := hs; exact hi)
+
+local macro "tok_close" : tactic =>
+  `(tactic| (intros; (try simp only [upd, inFlight, committed, asleep, PPc.sleepy, PPc.targets, PPc.inWait] at *); first | done | grind))
+
+set_option maxHeartbeats 4000000 in
+theorem tinv_step (s s' : St) (e : Ev) (hi : TInv s) (hs : step s e = some s') : TInv s' := by
+  have hp' := pinv_of_step s s' e hi.pinv hs
+  obtain ⟨hp, h2, h3, h4, h5, h6, h7, h8⟩ := hi
+  obtain ⟨p1, p2, p3, p4, p5, p6, p7, p8, p9, p10, p11, p12⟩ := hp
+  cases e with
+  | p pe =>
+    cases pe <;> simp only [step, pstep] at hs
+    all_goals (repeat' (split at hs))
+    all_goals (try simp at hs)
+    all_goals (subst hs; refine ⟨hp', ?_, ?_, ?_, ?_, ?_, ?_, ?_⟩ <;> tok_close)
+  | _ =>
+    simp only [step] at hs
+    all_goals (repeat' (split at hs))
+    all_goals (try simp at hs)
+    all_goals (subst hs; refine ⟨hp', ?_, ?_, ?_, ?_, ?_, ?_, ?_⟩ <;> tok_close)
+
+theorem tinv_of_run {es : List Ev} {s : St} (h : sys.run es = some s) : TInv s :=
+  Sys.inv_of_run sys TInv tinv_init (fun s e s' hi hs => tinv_step s s' e hi hs) h
+
+/-- a published token that has not been taken is announced, remembered, or being acted upon -/
+theorem covered_of_inv {s : St} (hi : TInv s) (w : Nat) (hw : s.p.waiterId = some w)
+    (ht : 0 < s.tokens) :
+    (committed s w → s.p.word = .raised ∨ ∃ g, inFlight s g) ∧
+    (asleep s w → ∃ g, inFlight s g ∨ (s.p.pc g).targets w) := by
+  obtain ⟨hp, h2, h3, h4, h5, h6, h7, h8⟩ := hi
+  by_cases hfl : s.fl = []
+  · refine ⟨fun hc => Or.inl (h7 ht hfl w hw hc), fun ha => ?_⟩
+    obtain ⟨g, hg⟩ := h8 ht hfl w ha
+    exact ⟨g, Or.inr (hp.waker_target w g hg)⟩
+  · obtain ⟨g, hg⟩ := List.exists_mem_of_ne_nil _ hfl
+    exact ⟨fun _ => Or.inr ⟨g, h3 g hg⟩, fun _ => ⟨g, Or.inl (h3 g hg)⟩⟩
+
+/-- with every other fiber outside any operation, the waiter cannot be asleep while a token
+    is there, and if it has decided to sleep the word is RAISED (its CAS will fail) -/
+theorem not_lost_of_inv {s : St} (hi : TInv s) (w : Nat) (hw : s.p.waiterId = some w)
+    (ht : 0 < s.tokens) (hq : ∀ g, g ≠ w → s.tk g = .idle) :
+    ¬ asleep s w ∧ (committed s w → s.p.word = .raised) := by
+  have hc := covered_of_inv hi w hw ht
+  obtain ⟨hp, h2, h3, h4, h5, h6, h7, h8⟩ := hi
+  have noflight : ∀ g, inFlight s g → g = w := by
+    intro g hg
+    by_cases hgw : g = w
+    · exact hgw
+    · have := hq g hgw
+      simp [inFlight, this] at hg
+  have hwait : ∀ p : PPc, p.sleepy ∨ p = .waitCalled ∨ p = .wCleared → p.inWait ∧ p ≠ .idle := by
+    intro p hp
+    simp only [PPc.sleepy, PPc.inWait] at *
+    rcases hp with (h | h | h) | h | h <;> subst h <;> simp
+  -- whenever w is inside the wait, it is not a publisher in flight
+  have wnot : (s.p.pc w).inWait → s.p.pc w ≠ .idle → ¬ inFlight s w := by
+    intro hin hne hf
+    simp only [inFlight] at hf
+    rcases hf with hf | ⟨hf, hpc⟩
+    · have := h4 w (by simp [hf]) (by simp [hf]); exact hne this
+    · exact h5 w true hf hin
+  constructor
+  · intro ha
+    obtain ⟨g, hg⟩ := hc.2 ha
+    have hsl := hwait _ (Or.inl ha.1)
+    rcases hg with hg | hg
+    · have := noflight g hg; subst this; exact wnot hsl.1 hsl.2 hg
+    · by_cases hgw : g = w
+      · subst hgw
+        simp only [PPc.targets, asleep, PPc.sleepy] at hg ha
+        rcases ha.1 with h | h | h <;> simp [h] at hg
+      · have hidle := h4 g (by simp [hq g hgw]) (by simp [hq g hgw])
+        simp [PPc.targets, hidle] at hg
+  · intro hcm
+    rcases hc.1 hcm with h | ⟨g, hg⟩
+    · exact h
+    · have := noflight g hg; subst this
+      simp only [committed] at hcm
+      rcases hcm with h | h | h
+      · simp [inFlight, h] at hg
+      · exact absurd hg (wnot (by simp [PPc.inWait, h]) (by simp [h]))
+      · exact absurd hg (wnot (by simp [PPc.inWait, h]) (by simp [h]))
+
+/-- each sleep is woken at most once, by one raiser -/
+theorem single_wake_of_inv {s : PSt} (hp : PInv s) (f : Nat) :
+    s.wakes f ≤ s.parks f ∧ s.parks f ≤ s.wakes f + 1 ∧
+    (∀ g g', (s.pc g).targets f → (s.pc g').targets f → g = g') := by
+  refine ⟨?_, ?_, ?_⟩
+  · rcases hp.counts f with h | h <;> omega
+  · rcases hp.counts f with h | h <;> omega
+  · intro g g' hg hg'
+    have a := hp.target_waker f g hg
+    have b := hp.target_waker f g' hg'
+    rw [a] at b; exact Option.some.inj b
+
+/-- the wake-up itself happens after the sleeper's hand-shake marker, and it was owed -/
+theorem wake_after_marker_of_inv {s s' : PSt} (hp : PInv s) (g f : Nat)
+    (hs : pstep s (.wStateReady g f) = some s') :
+    s.pc f = .parked ∧ s.scratch f = true ∧ s.wakes f + 1 = s.parks f ∧ s'.wakes f = s'.parks f := by
+  simp only [pstep] at hs
+  split at hs <;> simp at hs
+  rename_i g' hpc
+  obtain ⟨hg, hs⟩ := hs
+  subst hg hs
+  have hpk := hp.ready_parked g f hpc
+  have hw := hp.target_waker f g (by simp [PPc.targets, hpc])
+  have := hp.waker_sleepy f g hw
+  refine ⟨hpk, (hp.marker f).2 hpk, this.2.1, ?_⟩
+  simp [upd]; omega
 
 end LibfiberVerif.Signal
